@@ -308,7 +308,7 @@ def canon_text(e, frame, keep=()):
     return ast.unparse(subst(e, FrameEnv(frame), keep=tuple(keep))).replace(' ', '')
 
 
-def scan_shape(g, list_attr):
+def scan_shape(g, list_attr, snapshot=False):
     """K14: `i = 0; while i < len(self.<list_attr>): ...` -- every path through the body does exactly one of
     {remove element i, i += 1}.  returns list of problems (node|None, message); empty list = ok.
     Also returns the loop head cond node (or None).  Expressions are compared in canonical spelling (canon_text), so a local alias of
@@ -328,7 +328,9 @@ def scan_shape(g, list_attr):
                 if isinstance(l, ast.Name) and canon_text(r, n.frame, keep=(l.id,)) == f'len(self.{list_attr})' and op in (ast.Lt, ast.GtE):
                     n._in_label = 'T' if op is ast.Lt else 'F'
                     heads.append((n, l.id))
-    if not heads:
+    if not heads and snapshot:
+        # (only where the caller has an argument that a scan over a snapshot visits the same elements: nothing can be added to the list
+        # while the scan runs.  The waiting list of the resource manager grows during its scan -- callbacks register -- so C10 does not ask)
         r = _snapshot_scan(g, list_attr)
         if r is not None:
             return r
